@@ -141,7 +141,7 @@ def oracle_ledgers(h):
                         for l in r['locks']:
                             if l[0] != unlock or l[2] != lp:
                                 out.append(viol('C16', i, 'lock_args', 'lock call %r' % (l,)))
-            elif ok and first:
+            elif ok and first and not barred:
                 # settled although a selection step is unfinished or the claim round is not reached:
                 # the views of that moment are not the final outcome
                 wins = len(V(vb, 'winIds', u) or [])
